@@ -126,6 +126,30 @@ def check_rotation(inp):
                 f'differs from t by {float(jnp.abs(u - v).max()):.4g}')
 
 
+def check_rotation_zero(inp):
+  """All real inputs: an all-zero vector (any shape), alone or as a leaf, rotates to zeros (norm 0 preserved) and comes back."""
+  shape = tuple(inp['shape'])
+  k = jax.random.PRNGKey(inp.get('seed', 0))
+  x = jnp.zeros(shape, jnp.float32)
+  r, shp = wh.structured_rotation(x, k)
+  if not np.all(np.isfinite(np.asarray(r))) or float(jnp.abs(r).max() if r.size else 0.0) != 0.0:
+    return f'structured_rotation of zeros{shape} gives {np.asarray(r).ravel()[:4].tolist()} (norm 0 must be preserved, no NaN)'
+  y = wh.inverse_structured_rotation(r, k, shp)
+  if y.shape != x.shape or not np.array_equal(np.asarray(y), np.asarray(x)):
+    return f'inverse rotation of rotated zeros{shape} gives {np.asarray(y).ravel()[:4].tolist()} with shape {y.shape}'
+  tree = {'w': jnp.ones((3,)), 'zero': x}
+  rt, st = wh.structured_rotation_pytree(tree, k)
+  back = wh.inverse_structured_rotation_pytree(rt, k, st)
+  for nm in tree:
+    if not np.allclose(np.asarray(back[nm]), np.asarray(tree[nm]), atol=1e-5, equal_nan=False):
+      return f'pytree with an all-zero leaf of shape {shape}: leaf {nm!r} comes back as {np.asarray(back[nm]).ravel()[:4].tolist()}'
+
+
+def sweep_rotation_zero(tier, seed):
+  for shape in ((), (1,), (4,), (5,), (2, 3)):
+    yield dict(shape=list(shape), seed=seed)
+
+
 def sweep_rotation(tier, seed):
   for dims in ((), (1,), (2,), (3,), (5,), (8,), (9,), (3, 5), (1, 1), (4, 4), (2, 3, 5), (7, 1, 2), (33,), (40, 40)):
     yield dict({f'dim{j}': d for j, d in enumerate(dims)}, seed=seed)
@@ -179,7 +203,7 @@ def check_bounded_all(inp):
 
 
 CHECKERS = {'wht': (check_wht, sweep_wht), 'rotation': (check_rotation, sweep_rotation),
-            'bounded': (check_bounded_all, sweep_bounded)}
+            'bounded': (check_bounded_all, sweep_bounded), 'rotation_zero': (check_rotation_zero, sweep_rotation_zero)}
 
 if __name__ == '__main__':
   sys.exit(common.main(CHECKERS))
